@@ -162,7 +162,7 @@ var c02Tokens = []string{
 	`"`, `\"`, `\\`, `\\"`, `\x5c`, `\x5c"`, `\\\"`, `\\\\`, `"+`, `"?`, `["]`, `[\"]`, `[^"]`, `[\\"]`, `[\x5c"]`, `["']`, `\x22`, `\x{22}`, `\\x`, `\\d`,
 	"\x01", "\x7f", "\t", "\x1f", `\x01`, `\x1f`, `\x7f`, `\x00`, `\t`, `\n`, `\r`, `\f`, `\v`, `\a`, `\x0b`, `\x80`, `\x{ff}`,
 	"é", "ß", "€", "😀", `\x{e9}`, `\x{20ac}`, `\x{1f600}`, `[é-ü]`, `[^é]`, `[\x{80}-\x{ff}]`,
-	`\s`, `[\s]`, `[\s -/]`, `[\s!]`, `[\s-]`, `[^\s]`, `\S`, `[\s\S]`, `[\sa-z]`, `[\s\d]`, `\s+`, `[\s,;]`, `[\s\x1f]`, `[\x0e\s]`, `[\s\x08]`, `[\s\x0b]`, `[ \t\n\r\f]`, `[\t\n\f\r ]`, `[ \t]`, `[\s"]`, `[\s\\]`, `[^\s"]`,
+	`\s`, `[\s]`, `[\s -/]`, `[\s!]`, `[\s-]`, `[^\s]`, `\S`, `[\s\S]`, `[\sa-z]`, `[\s\d]`, `\s+`, `[\s,;]`, `[\s\x1f]`, `[\x0e\s]`, `[\s\x08]`, `[\s\x0b]`, `[\x00\s]`, `[^\x01-\x07\s]`, `[\x00\s -/]`, `[\x07\s]+`, `[ \t\n\r\f]`, `[\t\n\f\r ]`, `[ \t]`, `[\s"]`, `[\s\\]`, `[^\s"]`,
 	`^`, `$`, `.`, `^$`, `.$`, `^.`, `(?:^|x)`, `(?:x|$)`, `(?:.|y)`, `(^a)`, `(b$)`, `\b`, `\B`, `^^`, `$$`, `.*`, `.+?`,
 	"a", "b", "foo", "x", "y", "z", "1", " ", "-", "/", "'", "#", ",", "(?:a|b)", "(c)", "[a-c]", `\d`, `\w`, `\W`, `a{2}`, `\.`, `\(`, `\)`, `\|`, `\[`, `\]`, `\{`, `\}`, `\?`, `\*`, `\+`, `\^`, `\$`, `\-`, `/`, `~`, `@`, `%`, `&`, `<`, `>`, `=`, `:`, `;`, "`",
 }
@@ -210,6 +210,14 @@ func c02Gen(r *rand.Rand, lane string) *c02Case {
 		sb.WriteString("##!$ " + core.Pick(r, `\b`, `"`, `\"`, `\s`, `\\`, `$`, `\x5c`) + "\n")
 	}
 	n := 1 + r.Intn(4)
+	if core.Chance(r, 1, 15) {
+		// no body at all: the output consists of the prefix and suffix text only
+		n = 0
+		sb.WriteString("##!^ " + core.Pick(r, `"[^"]+"`, `C:\\é`, `a\sb`, `\\`, "x\x01y", `[\s"]`) + "\n")
+		if core.Chance(r, 1, 2) {
+			sb.WriteString("##!$ " + core.Pick(r, `"`, `\\"`, `é`, `\s`, `[^"\s]`) + "\n")
+		}
+	}
 	block := core.Chance(r, 1, 4)
 	if block {
 		sb.WriteString("##!> assemble\n")
@@ -335,7 +343,7 @@ func init() {
 		Rule: "hostile programs built from a token table (every placement of \", \\\", \\\\, \\\\\", \\x5c, \\x5c\", raw and escaped control bytes, raw and escaped non-ASCII runes, \\s-containing classes with neighbours, ^ $ . next to each other and next to group boundaries; 1..4 entries of 1..6 tokens, optional flags, prefix/suffix, block with markers) plus the escapes / white-space-class / flags / affix / cmdline lanes of the C01 generator are compiled by the built CLI; one case in six also runs `regex update` and scans the operand inside its SecRule line. " +
 			"Oracle: a lexical scanner plus regexp/syntax: only bytes 0x20..0x7e; every quote escaped; no two-byte \\\\; \\s always followed by \\x0b and no bracket expression that lists tab, newline, form feed, carriage return and space without the vertical tab; no '(?' other than '(?:' / '(?P<' except one leading group with sorted unique letters from {i,s}; parses as RE2; in `SecRule ARGS \"@rx <out>\" \\` the first unescaped quote is the closing one. Non-trivial = output contains a quote, a backslash or a group. Programs that do not compile are outside the quantifier (skipped).",
 		Cases: func(env *core.Env, rng *rand.Rand) []core.Case {
-			n := env.N(1200, 30000)
+			n := env.N(3000, 40000)
 			var cs []core.Case
 			g := &ra.Gen{R: rng, O: ra.Opts{Cmdline: true, Flags: true, Affixes: true, Upper: true}}
 			lanes := []string{"escapes", "space-classes", "flags", "affix", "cmdline", "mixed"}
